@@ -28,6 +28,7 @@ def sample_coverage(ctx: Ctx) -> list[Ob]:
             obs.append(viol("R4t", c.qualname, "sample", "inherits the refusing TorchInnerLayer.sample: the sampling query raises TypeError on every compiled circuit that contains this layer", c.loc))
         else:
             obs.append(ok("R4t", c.qualname, "sample", f"overridden in {f.cls.name}", f.loc))
+    obs += r14.sampling_leaves_rng_alone(ctx)
     return obs
 
 
@@ -56,6 +57,7 @@ SPEC = PropSpec(
         "the refusing base sample() (otherwise the query raises for the circuits built with it, e.g. under optimize=True); R8: the "
         "guards of SamplingQuery (__init__, __call__) fire under every valuation; R4q sample-call: SamplingQuery.__call__, interpreted on an abstract (O, K, N, D) result of the sampling pass, returns (num_samples, num_variables) whose rows are the sample axis and whose columns are the variable axis (element order, not only sizes). R4u: sample() of every inner layer reads all of its inputs (selections x[:, i] of the arity axis cover 0..H-1, or the axis is reduced / unbound / flattened as a whole): an input that is never read leaves its variables at zero in every sample."
         " R14n: the sign test by which sample() of a sum layer refuses is `weight < 0` (or its negation), never a strict-positivity test -- mixing layers and sparse mixtures have exact zeros. R14p: no cast of sampled values to an integer type that cannot hold every category admitted by its guard (int8 holds 128 values). R4s randomness: sample() of every input layer draws one independent random number per returned entry -- some random source (distribution.sample, randn, rand, multinomial) has as many elements as the (F, Ko, N) result; noise of shape (N,) broadcast over folds and units leaves every marginal right and the joint wrong under fold=True. R10i: no sample() updates in place a tensor that aliases its argument (`y = x[:, 0]; y += ..`): the argument is the stored output of another module, handed out as a view by the address book."
+        ' R14y: nothing in the torch backend seeds, forks or restores a random generator (manual_seed, fork_rng, set_rng_state): two calls of a sampling query are independent draws.'
     ),
     not_decided="the distribution of the samples (statistical); which mixture component is chosen; positivity of the returned samples.",
     run=run,
